@@ -56,6 +56,9 @@ def obligations(tier):
         CH("composite_filter_routes", H, "routes", t * 2, mode="E1s", functions=FM + FF[2:],
            bounds="2 filters from 5 (one separating the versions of an id) x 4 placements each (query, member A, member B, composite) x member order x 3 partitions of the population; query, all_versions and get of members and composite"),
     ]
+    for q, kind in enumerate(("scalar", "list of 1-2", "dotted path through a list of 1-2 dictionaries")):
+        obls.append(CH("conjunction_same_property_p%d" % q, H, "conjunction_same_property", t, functions=FF[:3], stubs=[FMT], env={"VERIF_PART": str(q)},
+                       bounds="two symbolic filters naming the same property (" + kind + "), unbounded ints, both orders, as list and as FilterSet, a filter given twice"))
     for q in range(4):
         obls.append(CH("fs_optimiser_three_allow_filters_p%d" % q, H, "optimiser3_allow", t * 2, mode="E1s", functions=FO + FM[:1] + ["stix2.datastore.filesystem.FileSystemSource.query"],
                    stubs=[FSS], env={"VERIF_PART": str(q)}, bounds="property " + ("type" if q < 2 else "id") + ", " + ("three routes" if q % 2 else "query argument") + "; every triple of allow filters (=, in, in []) on the same property (type or id) x values; all as query argument, or attached / argument / handed down"))
